@@ -156,7 +156,9 @@ def lake_build(targets):
 def run_translators():
     """regenerate every Gen/*.lean from the current /repo (tie T2-src)."""
     out = ''
-    for tool in ('gen_dq.py', 'gen_src.py'):
+    for tool in ('gen_dq.py', 'gen_src.py', 'gen_logic.py'):
+        if not os.path.exists(os.path.join(ROOT, 'tools', tool)):
+            continue
         r = subprocess.run([sys.executable, os.path.join(ROOT, 'tools', tool), REPO], capture_output=True, text=True)
         out += r.stdout + r.stderr
         if r.returncode != 0:
